@@ -166,9 +166,12 @@ CLAIMED = {
          "Lock/Unlock carry non-reentrancy / held preconditions, the lock invariant is re-established at Unlock and the mutex is released "
          "at thread end. Scan phase: one thread per delivered map key (names distinct: loop invariant over the visited set), the error list "
          "is guarded (after the repair of F-C20 - before it [thread-frames-disjoint:errs] failed), Add == number of forks. Close phase: one "
-         "thread per closer, per-thread slots, Done exactly once on every path. The second sentence of the property (linearizability of "
-         "sync2.Map / ConcurrentSet histories, LoadOrStoreFn atomicity) is NOT decided: sequential contracts cannot express it - level "
-         "'other' for that reason.",
+         "thread per closer, per-thread slots, Done exactly once on every path. Second sentence: sync2.Map Load / Store / Delete / "
+         "LoadOrStore / LoadOrStoreFn and ConcurrentSets Put / Exists / Remove are verified `linearizable`: under arbitrary interference "
+         "(havoc of the shared abstract state before every atomic step), with the postcondition relative to the state at the last atomic "
+         "step and every earlier step a pure read - so every call takes effect atomically at that step with the result its sequential "
+         "contract prescribes (LoadOrStoreFn failed this before the repair of F-C20b). Level 'other' because histories with Range are not "
+         "decided (not an atomic snapshot) and the uninstantiated generic set has no body to verify.",
          "DESIGN.md section 5 C20",
          "contract-based deductive verification (govc WP over go/ssa, z3/cvc5): fork/join + lockset rule",
          "What a scanner callback writes is abstracted as the region ScanRegion[name] (A-CALLBACK: a scan of component X stays inside X's "
@@ -238,8 +241,8 @@ CLAIMED = {
          "the reflect.Value.Call arity obligation in FuncNameAndResult is discharged after the repair of F-C06.",
          "DESIGN.md section 5 C06",
          "contract-based deductive verification (govc WP over go/ssa, z3/cvc5)",
-         "DefinitionRegistry.GetMetas is used through its interface-level contract (sound, complete, duplicate-free, any order); its "
-         "implementation over sync.Map.Range is not yet under contract. package reflect is axiomatised (A-REFLECT). With substituting "
+         "DefinitionRegistry.GetMetas is used through its interface-level contract (sound, complete, duplicate-free, any order); the built-in "
+         "registry's implementation is proved against it with the iteration rule (sync2.Map.Range is the trusted iterator). package reflect is axiomatised (A-REFLECT). With substituting "
          "post-processors the injected version's type is assumed assignable (named site assumption). " + TRUST),
  "C07": ("proof",
          "By-name branch: the candidate appended for a named single-valued point is exactly the definition registered under that name if it "
